@@ -220,9 +220,11 @@ def parseComp (asPos root : Bool) (comp : Comp) (g : Given) : Except Err Cfg :=
         | .error e => .error e
         | .ok vals =>
           let allEmpty := (parserOfSig asPos init).isEmpty && (m0 :: ms).all (fun x => (parserOfSig asPos x.sig).isEmpty)
-          -- an argument of the class parser (an init parameter, or `config`) with the name of the chosen method shares
-          -- its key with the method's sub-namespace: parse_args dies with AttributeError
-          if vals.any (fun e => e.1 == m) || (m == "config" && (root || !allEmpty)) then .error .crash else
+          -- an argument of the class parser with the name of the chosen method shares its key with the method's
+          -- sub-namespace: `_check_subcommand_settings` reports "Expected the settings of subcommand … to be a mapping"
+          -- (a parse error) for an init parameter of that name, and for `config` when a --config was given at this level;
+          -- a method called `config` without --config parses (and `_run_component` then pops its whole namespace)
+          if vals.any (fun e => e.1 == m) || (m == "config" && (root || !allEmpty) && g.cfgTop != Val.none) then .error .parse else
           match fill (parserOfSig asPos md.sig) g.sub with
           | .error e => .error e
           | .ok sub =>
@@ -327,8 +329,8 @@ def chainEntries : Key → Key → Cfg
 def parseTree (asPos : Bool) (comps : Comps) (path : Key) (g : Given) : Except Err Cfg :=
   -- every subparser is built up front: a colliding name anywhere is a construction error
   if comps.any (fun e => parseCompBuild e.2 || e.1.any (· == "subcommand")) then .error .construction else
-  -- a chosen subcommand called `config` shares its key with the `config` argument of the parser above it
-  if path.any (· == "config") then .error .crash else
+  -- (a chosen subcommand called `config` shares its key with the `config` argument of the parser above it: it works as
+  -- long as no --config is given at that level, which is all this model of a dict of components represents)
   match lookupComp path comps with
   | .none => .error .parse
   | some comp =>
